@@ -201,3 +201,72 @@ def resolve_local(f, e, depth=0):
         return ntext(Sub().visit(copy.deepcopy(e)))
     except Exception:
         return ntext(e)
+
+
+def analysis_units(ctx, reach):
+    """Functions of `reach` as analysis units for local (intra-procedural) rules: a private helper (`_name`) whose every
+    call in the package is a plain call that the source-level inliner can expand is analysed *inside* its callers (where
+    the guards and the facts about its arguments are) and not on its own; callers are returned as views with those
+    helpers inlined.  Returns a list of Func-like objects (qual unchanged; .node holds the possibly rewritten body)."""
+    def build():
+        import copy as _copy
+        from ..normalise import inline_helpers
+
+        P = ctx.P
+        views = {}
+        inlined_callees = set()
+        for q in sorted(reach):
+            f = P.funcs.get(q)
+            if f is None or f.is_lambda or f.parent is not None:
+                continue
+            has_private_call = any(isinstance(c, ast.Call) and ((isinstance(c.func, ast.Attribute) and c.func.attr.startswith("_") and not c.func.attr.startswith("__")) or (isinstance(c.func, ast.Name) and c.func.id.startswith("_") and not c.func.id.startswith("__"))) for c in walk_local(f.node))
+            if not has_private_call:
+                continue
+            body, n = inline_helpers(P, f)
+            if not n:
+                continue
+            view = _copy.copy(f)
+            node = _copy.copy(f.node)
+            node.body = body
+            for st_ in body:
+                st_._parent = node
+            view.node = node
+            views[q] = view
+            # which helpers disappeared from this caller?
+            before = {ntext(c.func) for c in walk_local(f.node) if isinstance(c, ast.Call)}
+            after = {ntext(c.func) for c in ast.walk(ast.Module(body=body, type_ignores=[])) if isinstance(c, ast.Call)}
+            for name in before - after:
+                short = name.split(".")[-1]
+                g = P.method(f.cls, short) if f.cls is not None and "." in name else P.funcs.get("%s.%s" % (f.module.name, short))
+                if g is not None:
+                    inlined_callees.add(g.qual)
+        # a helper is dropped as a unit only if every call site of it was expanded
+        drop = set()
+        for gq in inlined_callees:
+            ok = True
+            for caller, lst in ctx.cg.sites.items():
+                for call, quals in lst:
+                    if gq in quals:
+                        if caller not in views:
+                            ok = False
+                        else:
+                            short = gq.split(".")[-1]
+                            still = any(isinstance(c, ast.Call) and ntext(c.func).split(".")[-1] == short for c in ast.walk(views[caller].node))
+                            if still:
+                                ok = False
+            if ok:
+                drop.add(gq)
+        out = []
+        for q in sorted(reach):
+            f = P.funcs.get(q)
+            if f is None:
+                continue
+            top = f
+            while top.parent is not None:
+                top = top.parent
+            if top.qual in drop:
+                continue
+            out.append(views.get(q, f))
+        return out
+
+    return ctx.get(("analysis_units", tuple(sorted(reach))[:3], len(reach)), build)
